@@ -141,7 +141,7 @@ func init() {
 			n := 0
 			for _, fi := range c.all {
 				k := 0
-				for _, cl := range callsIn(fi.Decl.Body) {
+				for _, cl := range fi.callsDeep(fi.Decl.Body) {
 					if fi.isBuiltin(cl, "panic") == nil {
 						continue
 					}
@@ -236,7 +236,7 @@ func init() {
 			if ds := c.Fn(c.W, "providerSetSrc.description"); ds != nil {
 				st := lookupType(c.W, "providerSetSrc").Underlying().(*types.Struct)
 				seen := map[string]bool{}
-				ast.Inspect(ds.Decl.Body, func(nd ast.Node) bool {
+				ds.inspect(ds.Decl.Body, func(nd ast.Node) bool {
 					if cc, ok := nd.(*ast.CaseClause); ok {
 						for _, e := range cc.List {
 							if x, isNil, ok := ds.nilTest(Cond{Kind: "bool", Expr: e}); ok && !isNil {
@@ -252,7 +252,7 @@ func init() {
 					r.Check(seen[st.Field(i).Name()], "description/case:"+st.Field(i).Name(), ds.Decl.Pos(), "description handles sources of kind %s", st.Field(i).Name())
 				}
 				for _, fi := range c.all {
-					ast.Inspect(fi.Decl.Body, func(nd ast.Node) bool {
+					fi.inspect(fi.Decl.Body, func(nd ast.Node) bool {
 						if cl, ok := nd.(*ast.CompositeLit); ok && isNamed(fi.Info.TypeOf(cl), pathW, "providerSetSrc") {
 							r.Check(len(cl.Elts) == 1, "providerSetSrc-literal@"+fi.Name+"/"+fi.loopCtx(cl), cl.Pos(), "a source record names exactly one source")
 						}
@@ -267,7 +267,7 @@ func init() {
 			n, auto, tri := 0, 0, 0
 			for _, fi := range c.all {
 				counts := map[string]int{}
-				ast.Inspect(fi.Decl.Body, func(nd ast.Node) bool {
+				fi.inspect(fi.Decl.Body, func(nd ast.Node) bool {
 					ta, ok := nd.(*ast.TypeAssertExpr)
 					if !ok || ta.Type == nil {
 						return true
@@ -375,7 +375,7 @@ func init() {
 			n := 0
 			for _, fi := range c.all {
 				seen := map[string]int{}
-				ast.Inspect(fi.Decl.Body, func(nd ast.Node) bool {
+				fi.inspect(fi.Decl.Body, func(nd ast.Node) bool {
 					sel, ok := nd.(*ast.SelectorExpr)
 					if !ok || fi.Info.Selections[sel] == nil {
 						return true
@@ -455,7 +455,7 @@ func init() {
 		func(c *Ctx, r *R) {
 			n := 0
 			for _, fi := range c.all {
-				ast.Inspect(fi.Decl.Body, func(nd ast.Node) bool {
+				fi.inspect(fi.Decl.Body, func(nd ast.Node) bool {
 					as, ok := nd.(*ast.AssignStmt)
 					if !ok || len(as.Lhs) != 2 || len(as.Rhs) != 1 {
 						return true
@@ -586,7 +586,7 @@ func init() {
 				return false, "index variable not bounded by this sequence"
 			}
 			for _, fi := range c.all {
-				ast.Inspect(fi.Decl.Body, func(nd ast.Node) bool {
+				fi.inspect(fi.Decl.Body, func(nd ast.Node) bool {
 					switch x := nd.(type) {
 					case *ast.IndexExpr:
 						seq := userSeq(fi, x.X)
